@@ -1,6 +1,7 @@
 """C14 stand-in: rational / decimal (start, end, duration, hop) grids, both flags; the real
 segment_clip is checked against the executable contract and an independent Fraction reference."""
 import itertools
+import math
 import sys
 from fractions import Fraction as F
 
@@ -54,6 +55,24 @@ def main():
         s.case(None, ("guard",) + bad)
         if not ok:
             s.fail(f"segment_guard:{bad}", f"segment_clip(duration={bad[0]}, hop={bad[1]}) -> {obs}, expected {exp}")
+    # ---- clips that were looked at before they changed: the tiling must follow the clip's CURRENT extent
+    for end0, end1, d, h in ((4.0, 9.0, 2.0, 2.0), (3.0, 10.5, 2.0, 3.0), (8.0, 3.0, 1.0, 1.0)):
+        for how in ("assign", "copy"):
+            clip = data.Clip(recording=rec, start_time=1.0, end_time=1.0 + end0)
+            _ = clip.duration                      # read once (as a caller displaying the clip would)
+            list(segment_clip(clip, duration=d, hop=h))
+            if how == "assign":
+                clip.end_time = 1.0 + end1
+                later = clip
+            else:
+                later = clip.model_copy(update={"end_time": 1.0 + end1})
+            segs = [(c.start_time, c.end_time) for c in segment_clip(later, duration=d, hop=h, include_incomplete=True)]
+            fresh = data.Clip(recording=rec, start_time=1.0, end_time=1.0 + end1)
+            want = [(c.start_time, c.end_time) for c in segment_clip(fresh, duration=d, hop=h, include_incomplete=True)]
+            n_want = math.ceil(end1 / h)
+            s.case(None, ("changed-clip", end0, end1, d, h, how))
+            if segs != want or len(segs) != n_want:
+                s.fail(f"segment_after_change:{how}", f"segment_clip on a clip whose end was changed from {1.0 + end0} to {1.0 + end1} ({how}) after its duration had been read: {len(segs)} segments {segs[:2]}..{segs[-1:]}, a fresh clip of the same extent gives {len(want)}, ceil(length/hop) = {n_want}")
     return s.finish("one case per (start, length, duration, hop, flag) grid point; all distinct; non-trivial = every case (each decides a window count)")
 
 
